@@ -301,6 +301,10 @@ def rule_dispatch_pairing(ctx):
 
 
 def run(ctx):
+    from . import edges
+    edges.rule_variational_call_args(ctx, 'R16.12')  # variational sets: same map as the real particles
+    edges.rule_dh_pair_extents(ctx, 'R12.7')         # forward and inverse democratic heliocentric maps sum over the same bodies
+    edges.rule_prototype_names(ctx, 'R11.13')
     rule_dispatch_pairing(ctx)
     rule_slices(ctx)
     rule_x1(ctx)
